@@ -210,6 +210,20 @@ func c19Handshakes(u *vfUnit) {
 		b := append([]byte(nil), body...)
 		b[0] = byte(t)
 		c19Try(u, fmt.Sprintf("type=%d", t), vfFrame(b), false, false, nil)
+		// the same type with the bodies that packet type would have in a session (a STATUS saying OK, a HANDLE, ...):
+		// whatever it says, it is not a VERSION packet
+		for bi, wb := range [][]byte{
+			vfPkt{Type: byte(t), ID: 0, Code: 0, Msg: "", Lang: ""}.bodyAs(rfStatus),
+			vfPkt{Type: byte(t), ID: 0, Code: 0, Msg: "OK", Lang: "en"}.bodyAs(rfStatus),
+			vfPkt{Type: byte(t), ID: 3, Code: 0}.bodyAs(rfStatus),
+			vfPkt{Type: byte(t), ID: 0, Handle: "h"}.bodyAs(rfHandle),
+			{byte(t), 0, 0, 0, 0, 0, 0, 0, 0},
+			{byte(t)},
+		} {
+			if t == rfStatus || t == rfHandle || t == rfData || t == rfAttrs || t == rfName || t == rfInit || t%64 == 7 {
+				c19Try(u, fmt.Sprintf("type=%d/body=%d", t, bi), vfFrame(wb), false, false, nil)
+			}
+		}
 	}
 	// truncation at every byte: re-framed (well-framed but short body) and stream EOF
 	full := vfFrame(body)
@@ -266,6 +280,15 @@ func c19Handshakes(u *vfUnit) {
 }
 
 var c19Supported = [][2]string{{"hardlink@openssh.com", "1"}, {"posix-rename@openssh.com", "1"}, {"statvfs@openssh.com", "2"}}
+
+// bodyAs renders p with the payload layout of packet type `as` and p's own type byte.
+func (p vfPkt) bodyAs(as byte) []byte {
+	q := p
+	q.Type = as
+	b := q.Body()
+	b[0] = p.Type
+	return b
+}
 
 // c19VersionBytes connects a raw driver to a fresh server and returns the VERSION reply body.
 func c19VersionBytes(u *vfUnit, kind vfKind) []byte { return c19VersionBytesLate(u, kind, nil) }
